@@ -166,6 +166,9 @@ func c02Fronts(c *core.Ctx) {
 }
 
 func (c02) RunCase(c *core.Ctx) {
+	if c.Case%97 == 23 && !w10(c, "C02") {
+		return
+	}
 	if c.Case%100 == 41 {
 		// a struct behind Preprocess is handed the field's own value and reports exactly the violations of what the function returned
 		c.Eval(1)
